@@ -55,13 +55,12 @@ func (c *checker) diskOp(e *sim.Ev) {
 		d.kvi["LastVoteTerm"] = e.A
 		s.pendVoteT, s.havePendV = e.A, true
 		c.cov("op:votet")
+		c.votePair(s, e)
 	case "d.set.LastVoteCand":
 		d.kv["LastVoteCand"] = e.Y
+		s.pendVoteC, s.havePendC = e.Y, true
 		c.cov("op:votec")
-		if s.havePendV {
-			c.recordVote(s.name, s.pendVoteT, e.Y, e.Seq, "durable")
-			s.havePendV = false
-		}
+		c.votePair(s, e)
 	case "d.snap.create":
 		d.nsnap++
 		d.snaps = append(d.snaps, &snapRec{id: e.X, index: e.A, term: e.B, cfgIdx: e.C, cfg: e.Y, seq: d.nsnap})
@@ -274,3 +273,12 @@ func (c *checker) deleteRange(s *server, e *sim.Ev) {
 }
 
 func (s *server) trailingOr(def uint64) uint64 { return def }
+
+// votePair: a vote is durably cast when both writes of one persistVote call
+// (in either order) have been made by the same incarnation.
+func (c *checker) votePair(s *server, e *sim.Ev) {
+	if s.havePendV && s.havePendC {
+		c.recordVote(s.name, s.pendVoteT, s.pendVoteC, e.Seq, "durable record")
+		s.havePendV, s.havePendC = false, false
+	}
+}
